@@ -48,7 +48,16 @@ def gen_program(rng, counters):
             items.append([f"  {fa} @db"])
             items.append([f"  {fb} ", N(sname, fa), " + 2"])
             counters["expr"] += 1
+            # local names inside the operands of @ds / @align in the struct body resolve against the struct too
+            if rng.random() < 0.5:
+                items.append(["  @ds ", N(sname, fa), " + 1"])
+                counters["struct_pad_expr"] = counters.get("struct_pad_expr", 0) + 1
+            if rng.random() < 0.4:
+                items.append(["  @align 2 + 0 * @sizeof ", N(sname, fa)])
+                counters["struct_pad_expr"] = counters.get("struct_pad_expr", 0) + 1
+            items.append(["  fz 1"])
             items.append(["@endstruct"])
+            items.append([f"@db {sname}.fz, {sname}"])
             if rng.random() < 0.6:
                 items.append(["@dw ", N(scope, fa), " + 2 & $ffff"])
             continue
@@ -137,6 +146,7 @@ def run(tier, seed):
     counters = {p: 0 for p in POSITIONS}
     counters["macro"] = 0
     counters["direct_define"] = 0
+    counters["struct_pad_expr"] = 0
     progs = []
     for _ in range(1500 if tier == "quick" else 20000):
         items = gen_program(rng, counters)
